@@ -7,6 +7,7 @@ _ENGINES = {
     "C07": ("sims.modesim", "ModeSim"),
     "C08": ("sims.optsim", "OptSim"),
     "C11": ("sims.framesim", "FrameSim"),
+    "C12": ("sims.modsim", "ModSim"),
 }
 
 
